@@ -1,6 +1,7 @@
 import FtdcVerif.Lemmas.Codec
 import FtdcVerif.Lemmas.EndToEnd
 import FtdcVerif.Lemmas.StreamE2E
+import FtdcVerif.Lemmas.SDynE2E
 /-!
 # C01 — structured round trip is lossless
 
@@ -202,6 +203,183 @@ theorem streaming_collector_roundtrip (n : Nat) (h1 : 1 ≤ n) (hn : n < 2 ^ 32)
         omega)
     exact ⟨ch, hc, hstr⟩
 
+/-- decoding one run: the chunk of documents `p.1 :: p.2` (all of one schema, all `Good`) is decoded to
+their projections -/
+theorem run_decodes (n : Nat) (hn : n < 2 ^ 32) (d0 : BDoc) (all : List BDoc) (hsimAll : ∀ x ∈ all, SimDoc d0 x)
+    (hgood : ∀ x ∈ all, Good x) (p : BDoc × List BDoc) (hmem : ∀ x ∈ chunkDocs p, x ∈ all)
+    (hsize : p.2.length + 1 ≤ n) :
+    ∃ ch, decodePayload (mkChunk p).payload = .ok ch ∧ ch.structured = (chunkDocs p).map project := by
+  have hhead : p.1 ∈ all := hmem p.1 (by simp [chunkDocs])
+  obtain ⟨gw, gl, gts, gd, gnm⟩ := hgood p.1 hhead
+  have hsimp : ∀ x ∈ p.2, SimDoc p.1 x := by
+    intro x hx
+    have hx' := hmem x (by simp [chunkDocs, hx])
+    exact simDoc_trans _ _ _ (simDoc_symm _ _ (hsimAll p.1 hhead)) (hsimAll x hx')
+  exact chunk_roundtrip p.1 p.2 gw gl gts hsimp gd
+    (by intro x hx; exact (hgood x (hmem x (by simp [chunkDocs, hx]))).2.2.2.1)
+    gnm (by omega)
+    (by
+      have a : p.2.length < 2 ^ 32 := by omega
+      have := Nat.mul_lt_mul'' gnm a
+      have e : (2 : Nat) ^ 32 * 2 ^ 32 = 2 ^ 64 := by decide
+      omega)
+
+/-- **End to end, for the batch collector, every chunk size, every number of documents.**  Add `d0` and
+then any documents `ds` of its schema to a fresh batch collector: every `Add` is accepted, `Resolve`
+returns one metric chunk per run of consecutive documents, the runs concatenated are `d0 :: ds`, and
+the reader decodes every chunk to exactly its documents with the non-metric leaves removed. -/
+theorem batch_collector_roundtrip (n : Nat) (h1 : 1 ≤ n) (hn : n < 2 ^ 32) (d0 : BDoc) (ds : List BDoc)
+    (hsim : ∀ d ∈ ds, SimDoc d0 d) (hgood : ∀ d ∈ d0 :: ds, Good d) :
+    ∃ runs : List (BDoc × List BDoc),
+      ((d0 :: ds).foldl (fun (b : Batch) d => (b.add d).1) (Batch.new n)).resolve = some (runs.map mkChunk) ∧
+      (runs.map chunkDocs).flatten = d0 :: ds ∧
+      ∀ p ∈ runs, ∃ ch, decodePayload (mkChunk p).payload = .ok ch ∧ ch.structured = (chunkDocs p).map project := by
+  obtain ⟨runs, g, hall⟩ := bg_run n h1 d0 ds hsim
+  obtain ⟨_, hcase⟩ := g
+  have hne : runs ≠ [] := by intro e; rw [e] at hall; simp at hall
+  rcases hcase with ⟨hr, _⟩ | ⟨_, hallh⟩
+  · exact absurd hr hne
+  · refine ⟨runs, ?_, hall, ?_⟩
+    · unfold Batch.resolve
+      have := allHold_resolve n _ runs [] hallh
+      rw [List.nil_append] at this
+      exact this
+    · intro p hp
+      have simTo : ∀ x ∈ d0 :: ds, SimDoc d0 x := by
+        intro x hx
+        rcases List.mem_cons.1 hx with rfl | hx
+        · exact simDoc_refl _
+        · exact hsim x hx
+      have hmem : ∀ x ∈ chunkDocs p, x ∈ d0 :: ds := by
+        intro x hx; rw [← hall]
+        simp only [List.mem_flatten, List.mem_map]
+        exact ⟨chunkDocs p, ⟨p, hp, rfl⟩, hx⟩
+      -- the size of the run
+      have hsize : p.2.length + 1 ≤ n := by
+        have : ∀ (cs : List Better) (ps : List (BDoc × List BDoc)), AllHold n cs ps → ∀ q ∈ ps, q.2.length + 1 ≤ n := by
+          intro cs
+          induction cs with
+          | nil => intro ps h q hq; cases ps <;> simp [AllHold] at h hq
+          | cons c cs ih =>
+            intro ps h q hq
+            cases ps with
+            | nil => simp at hq
+            | cons p0 ps =>
+              simp only [AllHold] at h
+              rcases List.mem_cons.1 hq with rfl | hq
+              · exact h.2.1
+              · exact ih ps h.2.2 q hq
+        exact this _ runs hallh p hp
+      exact run_decodes n hn d0 (d0 :: ds) simTo hgood p hmem hsize
+
+/-- **End to end, for the dynamic collector.**  Documents of one schema have one schema key
+(`sim_schemaKey`), so the dynamic collector holds exactly one batch collector and everything
+`batch_collector_roundtrip` says holds of it. -/
+theorem dynamic_collector_roundtrip (n : Nat) (h1 : 1 ≤ n) (hn : n < 2 ^ 32) (d0 : BDoc) (ds : List BDoc)
+    (hsim : ∀ d ∈ ds, SimDoc d0 d) (hgood : ∀ d ∈ d0 :: ds, Good d) :
+    ∃ runs : List (BDoc × List BDoc),
+      ((d0 :: ds).foldl (fun (c : Dynamic) d => (c.add d).1) (Dynamic.new n)).resolve = some (runs.map mkChunk) ∧
+      (runs.map chunkDocs).flatten = d0 :: ds ∧
+      ∀ p ∈ runs, ∃ ch, decodePayload (mkChunk p).payload = .ok ch ∧ ch.structured = (chunkDocs p).map project := by
+  obtain ⟨runs, hr, hall, hdec⟩ := batch_collector_roundtrip n h1 hn d0 ds hsim hgood
+  refine ⟨runs, ?_, hall, hdec⟩
+  have hch := dynamic_one_schema n d0 ds hsim
+  generalize (d0 :: ds).foldl (fun (c : Dynamic) d => (c.add d).1) (Dynamic.new n) = c at hch
+  obtain ⟨m, chunks, hash⟩ := c
+  simp only at hch
+  subst hch
+  rw [dynamic_resolve_one]
+  exact hr
+
+/-- **End to end, for the dynamic collector, any sequence of schemas.**  The documents are any
+sequence of runs `(head, tail)`; inside a run every document has the head's schema, and consecutive
+runs have different schema keys (what is excluded is only two different schemas with one key, the
+collision the collector cannot see).  Every chunk `Resolve` returns decodes to exactly its documents,
+and the chunks' documents concatenated are all the documents, in order. -/
+theorem dynamic_collector_any_schemas (n : Nat) (h1 : 1 ≤ n) (hn : n < 2 ^ 32)
+    (s0 : BDoc × List BDoc) (segs : List (BDoc × List BDoc))
+    (hsim : ∀ s ∈ s0 :: segs, ∀ d ∈ s.2, SimDoc s.1 d) (hadj : AdjDiff (s0 :: segs))
+    (hgood : ∀ s ∈ s0 :: segs, ∀ d ∈ chunkDocs s, Good d) :
+    ∃ runs : List (BDoc × List BDoc),
+      (((s0 :: segs).flatMap chunkDocs).foldl (fun (c : Dynamic) d => (c.add d).1) (Dynamic.new n)).resolve =
+        some (runs.map mkChunk) ∧
+      (runs.map chunkDocs).flatten = (s0 :: segs).flatMap chunkDocs ∧
+      ∀ p ∈ runs, ∃ ch, decodePayload (mkChunk p).payload = .ok ch ∧ ch.structured = (chunkDocs p).map project := by
+  have hch := dynamic_runs n s0 segs hsim hadj
+  obtain ⟨runs, hr, hall, hdec⟩ := resolve_batches n
+    (fun p => ∃ ch, decodePayload (mkChunk p).payload = .ok ch ∧ ch.structured = (chunkDocs p).map project)
+    (s0 :: segs) [] (by
+      intro s hs
+      exact batch_collector_roundtrip n h1 hn s.1 s.2 (hsim s hs) (hgood s hs))
+  refine ⟨runs, ?_, hall, hdec⟩
+  unfold Dynamic.resolve
+  rw [hch]
+  rw [List.map_nil, List.nil_append] at hr
+  exact hr
+
+/-- **End to end, for the schema-aware streaming collector**: on documents of one schema it never
+flushes for a schema change, so its inner streaming collector is in exactly the state
+`streaming_collector_roundtrip` describes. -/
+theorem streaming_dynamic_collector_roundtrip (n : Nat) (h1 : 1 ≤ n) (hn : n < 2 ^ 32) (d0 : BDoc) (ds : List BDoc)
+    (hsim : ∀ d ∈ ds, SimDoc d0 d) (hgood : ∀ d ∈ d0 :: ds, Good d) :
+    ∃ (chs : List (BDoc × List BDoc)) (cur : Option (BDoc × List BDoc)),
+      let c := ((d0 :: ds).foldl (fun (c : StreamingDynamic) d => (c.add d).1) (StreamingDynamic.new n)).s
+      logDocs c.out = chs.map mkChunk ∧
+      (∀ p, cur = some p → c.inner.resolve = some [mkChunk p]) ∧
+      allDocs chs cur = d0 :: ds ∧
+      ∀ p, (p ∈ chs ∨ cur = some p) →
+        ∃ ch, decodePayload (mkChunk p).payload = .ok ch ∧ ch.structured = (chunkDocs p).map project := by
+  rw [sd_one_schema n d0 ds hsim]
+  exact streaming_collector_roundtrip n h1 hn d0 ds hsim hgood
+
+/-- **End to end, for the schema-aware streaming collector, any sequence of schemas.**  Same
+hypotheses as `dynamic_collector_any_schemas`.  What reached the writer is one metric chunk per run in
+`chs`, the pending chunk is the run `p`, all of them concatenated are all the documents in order (a
+change of schema key flushes the pending chunk, losing nothing), and every chunk decodes to exactly
+its documents. -/
+theorem streaming_dynamic_collector_any_schemas (n : Nat) (h1 : 1 ≤ n) (hn : n < 2 ^ 32)
+    (s0 : BDoc × List BDoc) (segs : List (BDoc × List BDoc))
+    (hsim : ∀ s ∈ s0 :: segs, ∀ d ∈ s.2, SimDoc s.1 d) (hadj : AdjDiff (s0 :: segs))
+    (hgood : ∀ s ∈ s0 :: segs, ∀ d ∈ chunkDocs s, Good d) :
+    ∃ (chs : List (BDoc × List BDoc)) (p : BDoc × List BDoc),
+      let c := (((s0 :: segs).flatMap chunkDocs).foldl (fun (c : StreamingDynamic) d => (c.add d).1)
+        (StreamingDynamic.new n)).s
+      logDocs c.out = chs.map mkChunk ∧
+      c.inner.resolve = some [mkChunk p] ∧
+      allDocs chs (some p) = (s0 :: segs).flatMap chunkDocs ∧
+      ∀ q, (q ∈ chs ∨ q = p) →
+        ∃ ch, decodePayload (mkChunk q).payload = .ok ch ∧ ch.structured = (chunkDocs q).map project := by
+  obtain ⟨chs, p, g, hall⟩ := sd_runs n h1 s0 segs hsim hadj
+  refine ⟨chs, p, g.sg.logged, ?_, hall, ?_⟩
+  · obtain ⟨⟨a1, a2, a3, a4, _, a6, _⟩, _, _⟩ := g.sg.pend
+    simp only [Better.resolve, a1, a4, mkChunk, a6, a2, a3]
+  · intro q hq
+    have hinsim : InSim q := by
+      rcases hq with hq | rfl
+      · exact g.runs q hq
+      · exact g.pend
+    have hsize : q.2.length + 1 ≤ n := by
+      rcases hq with hq | rfl
+      · exact g.sg.small q hq
+      · exact g.sg.pend.2.2
+    have hg : ∀ x ∈ chunkDocs q, Good x := by
+      intro x hx
+      have hmem : x ∈ (s0 :: segs).flatMap chunkDocs := by
+        rw [← hall]
+        rcases hq with hq | rfl
+        · simp only [allDocs, List.mem_append, List.mem_flatten, List.mem_map]
+          exact Or.inl ⟨chunkDocs q, ⟨q, hq, rfl⟩, hx⟩
+        · simp only [allDocs, List.mem_append]
+          exact Or.inr hx
+      obtain ⟨s, hs, hxs⟩ := List.mem_flatMap.1 hmem
+      exact hgood s hs x hxs
+    exact run_decodes n hn q.1 (chunkDocs q)
+      (by intro x hx
+          rcases List.mem_cons.1 hx with rfl | hx
+          · exact simDoc_refl _
+          · exact hinsim x hx)
+      hg q (fun x hx => hx) hsize
+
 /-! non-vacuity: `{a: 5, s: "x", n: {b: <double>}}` followed by two more samples of that schema
 (the string leaf differs, which is allowed) meets every hypothesis of `chunk_roundtrip` -/
 example : ∃ c, decodePayload (payloadOf
@@ -239,5 +417,33 @@ example : DatesOk (.cons [100] (.datetime 1600000000000#64) (.cons [101] (.doc (
   refine ⟨?_, ⟨trivial, trivial⟩, trivial⟩
   show InNanoRange _
   unfold InNanoRange; decide
+
+/-! non-vacuity of `dynamic_collector_any_schemas`: three runs `{a}×2, {b}, {a}` with chunk size 1 -/
+theorem good_a (k : Nat) (hk : k ≠ 0 ∧ k < 256) (v : BitVec 64) : Good (.cons [k] (.int64 v) .nil) := by
+  refine ⟨⟨by intro b hb; simp at hb; omega, trivial, trivial⟩, by simp [serDoc_length, serElems, serVal, le64, leN, BVal.tag], by simp [NoTs, NoTsVal], by simp [DatesOk, DatesOkVal], by simp [vals, extractDoc, extractVal]⟩
+
+example : ∃ runs : List (BDoc × List BDoc),
+    (([((.cons [97] (.int64 5#64) .nil : BDoc), [(.cons [97] (.int64 6#64) .nil : BDoc)]),
+       (.cons [98] (.int64 5#64) .nil, []),
+       (.cons [97] (.int64 7#64) .nil, [])].flatMap chunkDocs).foldl
+        (fun (c : Dynamic) d => (c.add d).1) (Dynamic.new 1)).resolve = some (runs.map mkChunk) ∧
+    ((runs.map chunkDocs).flatten).length = 4 := by
+  obtain ⟨runs, h1, h2, _⟩ := dynamic_collector_any_schemas 1 (by omega) (by omega)
+    (.cons [97] (.int64 5#64) .nil, [.cons [97] (.int64 6#64) .nil])
+    [(.cons [98] (.int64 5#64) .nil, []), (.cons [97] (.int64 7#64) .nil, [])]
+    (by intro s hs d hd
+        simp at hs
+        rcases hs with rfl | rfl | rfl
+        · simp at hd; subst hd; simp [SimDoc, SimVal]
+        · simp at hd
+        · simp at hd)
+    (by simp [AdjDiff, HeadDiff, schemaKey, hashElems, hashVal])
+    (by intro s hs d hd
+        simp at hs
+        rcases hs with rfl | rfl | rfl <;> simp [chunkDocs] at hd
+        · rcases hd with rfl | rfl <;> exact good_a 97 (by omega) _
+        · subst hd; exact good_a 98 (by omega) _
+        · subst hd; exact good_a 97 (by omega) _)
+  exact ⟨runs, h1, by rw [h2]; simp [chunkDocs]⟩
 
 end Ftdc.Props.C01
